@@ -3,8 +3,15 @@
 usage: agent_task.py <Cxx> <worktree dir>   (prints the task)"""
 import json, sys
 pid, wt = sys.argv[1], sys.argv[2]
+STYLE = sys.argv[3] if len(sys.argv) > 3 else "edit"
 p = [json.loads(l) for l in open('/verif/properties.jsonl') if json.loads(l)['id'] == pid][0]
 NOTE = open('/verif/tools/agent_diversity_note.txt').read().strip()
+if STYLE == "edit":
+    DIV = f"""DIVERSITY NOTE (important): earlier rounds already produced the following changes, so do NOT produce them or close relatives again:
+{NOTE}
+Find something ELSE: a different code path, a different operator combination (the property may be broken by how two operators of the crate interact), a different kind of edit. It should manifest within ONE subscription on ONE thread with conformant, synchronously greeting peers (for the thread properties: a NEW interleaving window). Produce up to THREE variants (OUT/A, OUT/B, OUT/C) if you can; if after a serious search you cannot find a realistic new change for this property, say so plainly instead of re-using a listed family."""
+else:
+    DIV = """STYLE OF CHANGE FOR THIS ROUND (important): earlier rounds produced many small local edits (one moved line, one dropped check). This time act as a maintainer who REWRITES one of the anchored operators substantially - for example: replace the collection of atomics/ArcSwap slots by one `Mutex<State>` struct or by an explicit `enum` state machine; restructure the handler into helper closures; replace recursion by a loop/trampoline; merge or split match arms; change the representation of member bookkeeping (Vec of enum states instead of counters); use std types instead of arc-swap - and in doing so makes ONE subtle slip, so that the rewritten operator is behaviourally identical to the original EXCEPT in a specific situation (a particular nesting/re-entrancy, a particular order of ends/errors/disposals, a boundary value of a parameter, an action at a particular phase). The rewrite should be the kind of diff a reviewer would skim and approve (30-150 changed lines), and must not deadlock or panic in ordinary use (be careful with locks held across calls into peers: the existing tests deliver re-entrantly). Produce up to TWO such rewrites (OUT/A, OUT/B), of different operators or with different slips. It should manifest within ONE subscription on ONE thread with conformant, synchronously greeting peers (for the thread properties: under a specific interleaving)."""
 print(f"""You are helping to evaluate a test suite for the Rust crate `callbag` (a small port of the callbag reactive/iterable stream spec: sources, sinks and operators over a five-message protocol Handshake/Data/Pull/Error/Terminate).
 
 You have your own scratch git worktree of the crate at {wt} (a checkout of its current HEAD). Work ONLY inside {wt}. Do not read or touch /repo, /verif or any other directory outside {wt} (the cargo registry in ~/.cargo is fine). There is no network: always pass --offline to cargo and set CARGO_TARGET_DIR={wt}/target. A Cargo.lock is already in place.
@@ -17,9 +24,7 @@ YOUR TASK: produce a realistic source change to the crate (files under {wt}/src 
 
 IMPORTANT: the change must need something SPECIFIC in order to manifest - a particular interleaving or nesting of events, a multi-step sequence of operations, an unusual input or parameter, a fault at a particular point, a second subscription, a sink that reacts from inside a handler, two cooperating sites - not something that ordinary straightforward use of the operator would expose at once. The existing tests must keep passing precisely because they do not exercise that situation.
 
-DIVERSITY NOTE (important): earlier rounds already produced the following changes, so do NOT produce them or close relatives again:
-{NOTE}
-Find something ELSE: a different code path, a different operator combination (the property may be broken by how two operators of the crate interact), a different kind of edit. It should manifest within ONE subscription on ONE thread with conformant, synchronously greeting peers (for the thread properties: a NEW interleaving window). Produce up to THREE variants (OUT/A, OUT/B, OUT/C) if you can; if after a serious search you cannot find a realistic new change for this property, say so plainly instead of re-using a listed family.
+{DIV}
 
 Also write a DEMONSTRATION: a new integration test file {wt}/tests/seed_demo.rs (register it in Cargo.toml with a [[test]] entry if required-features are needed, mirroring the existing entries; or use an example program if easier) using only the crate's public API, that FAILS with your change applied and PASSES on the unchanged HEAD. Keep it self-contained (hand-written source/sink closures are fine; look at the existing tests under {wt}/tests for how callbags are written by hand; `Message`, `Source`, `Sink` and `From<closure>` are public). For thread-interleaving properties a demonstration that forces the interleaving by hand (barriers/sleeps) or that fails with high probability over many iterations is acceptable; say which.
 
